@@ -410,11 +410,15 @@ def hint(ctx):
                     n += 1
                     ctx.check(any(unparse(v) == "not explicit_backend" for v in sub.values), a, "prefer=%s acts only when no backend was chosen explicitly" % [unparse(v) for v in sub.values if "prefer" in names_in(v)],
                               "prefer overrides an explicitly chosen backend")
-    ctx.floor(n, 2, "uses of prefer in forcing conditions")
+    # (no instance floor here: the decision table below decides the forcing conditions as a whole)
     g = cfg_of(f)
     defs = [a for a in nodes_of_type(f, ast.Assign) if "explicit_backend" in stores_to(a)]
     ctx.need(defs, "explicit_backend is no longer computed in _get_active_backend")
     none_tests = [n_ for n_ in nodes_of_type(f, ast.If) if unparse(n_.test) == "backend is None"]
+    for n_ in none_tests:
+        mk = [a for a in n_.body if isinstance(a, ast.Assign) and "backend" in stores_to(a)]
+        ctx.check(bool(mk) and unparse(mk[0].value) == "BACKENDS[DEFAULT_BACKEND](nesting_level=0)", mk[0] if mk else n_, "no backend anywhere => a fresh default backend at nesting level 0",
+                  "when no backend is set, _get_active_backend does not create the default backend at nesting level 0")
     for a in defs:
         if is_const(a.value, False):
             conds = g.conditions_at(g.nodes_of(a))
@@ -433,6 +437,50 @@ def hint(ctx):
         if unparse(n_.test) == "force_processes":
             rets = [r for r in n_.body if isinstance(r, ast.Return)]
             ctx.check(bool(rets), n_, "prefer='processes' falls back to the default process backend")
+    # decision table of the selection: the function's own expressions for force_threads / force_processes are folded
+    # over every combination of (require, prefer, backend explicit?, backend shares memory?, backend uses threads?)
+    from .. import table
+    from ..core import Undecidable
+    import itertools
+    ft = [a for a in nodes_of_type(f, ast.Assign) if "force_threads" in stores_to(a)]
+    fp = [a for a in nodes_of_type(f, ast.Assign) if "force_processes" in stores_to(a)]
+    if len(ft) != 1 or len(fp) != 1:
+        raise Undecidable("force_threads / force_processes are no longer single definitions")
+    wrong = []
+    rows = 0
+    try:
+        for require, prefer, explicit, shm, thr in itertools.product((None, "sharedmem"), (None, "threads", "processes"), (True, False), (True, False), (True, False)):
+            if prefer == "processes" and require == "sharedmem":
+                continue        # rejected earlier with ValueError
+            env = {"require": require, "prefer": prefer, "explicit_backend": explicit, "supports_sharedmem": shm, "uses_threads": thr}
+            got_t = bool(table.ev(ft[0].value, env, None))
+            got_p = bool(table.ev(fp[0].value, env, None))
+            want_t = (require == "sharedmem" and not shm) or (not explicit and prefer == "threads" and not thr)
+            want_p = (not explicit) and prefer == "processes" and thr
+            rows += 1
+            if (got_t, got_p) != (want_t, want_p):
+                wrong.append(((require, prefer, "explicit" if explicit else "default", "shm" if shm else "no-shm", "threads" if thr else "procs"), (got_t, got_p)))
+    except table.Unknown as u:
+        raise Undecidable("forcing conditions read `%s`, which the decision table does not model" % u)
+    ctx.check(not wrong, ft[0], "decision table (%d rows): threads are forced exactly for an unmet sharedmem requirement or an unexplicit non-thread backend with prefer='threads'; processes exactly for an unexplicit thread backend with prefer='processes'" % rows,
+              "backend selection is wrong for (require, prefer, backend, memory, kind) = %s" % wrong[:3])
+    sup = [a for a in nodes_of_type(f, ast.Assign) if "supports_sharedmem" in stores_to(a)]
+    ut = [a for a in nodes_of_type(f, ast.Assign) if "uses_threads" in stores_to(a)]
+    ctx.check(len(sup) == 1 and unparse(sup[0].value) == "getattr(backend, 'supports_sharedmem', False)" and len(ut) == 1 and unparse(ut[0].value) == "getattr(backend, 'uses_threads', False)", sup[0] if sup else f,
+              "the two backend traits are read from the candidate backend (absent = False)")
+    g_ = cfg_of(f)
+    for r in nodes_of_type(f, ast.Return):
+        from ..core import cond_facts
+        fc = [x for x in cond_facts(g_.conditions_at(g_.nodes_of(r))) if x[0] in ("force_threads", "force_processes")]
+        first = r.value.elts[0] if isinstance(r.value, ast.Tuple) else r.value
+        d_ = [a for a in nodes_of_type(f, ast.Assign) if isinstance(first, ast.Name) and first.id in stores_to(a)]
+        src = unparse(d_[0].value, 200) if len(d_) == 1 and first.id != "backend" else unparse(first)
+        if ("force_threads", True) in fc:
+            ctx.check("DEFAULT_THREAD_BACKEND" in src, r, "forced threads => the default thread backend", "under force_threads the function returns %s" % src)
+        elif ("force_processes", True) in fc:
+            ctx.check("DEFAULT_PROCESS_BACKEND" in src and ("force_threads", False) in fc, r, "forced processes => the default process backend", "under force_processes the function returns %s" % src)
+        else:
+            ctx.check(unparse(first) == "backend" and ("force_threads", False) in fc and ("force_processes", False) in fc, r, "otherwise the candidate backend itself", "without forcing the function returns %s under %s" % (src, fc))
 
 
 def passthrough(ctx):
